@@ -148,3 +148,28 @@ Proof.
   - rewrite (proj2 (alookup_None k0 l)) in IH by exact Hn. rewrite IH by exact Hd. apply app_nil_r.
   - cbn. apply IH. exact Hd.
 Qed.
+
+(* two-key association lists *)
+Lemma alookup2_aset2_same {V} a b (v : V) l : alookup2 a b (aset2 a b v l) = Some v.
+Proof.
+  induction l as [|[[a' b'] v'] l IH]; cbn [aset2 alookup2].
+  - rewrite !N.eqb_refl. reflexivity.
+  - destruct (N.eqb a a' && N.eqb b b') eqn:E; cbn [alookup2]; [rewrite !N.eqb_refl; reflexivity|rewrite E; exact IH].
+Qed.
+Lemma key2_neq a b a' b' : (a', b') <> (a, b) -> N.eqb a' a && N.eqb b' b = false.
+Proof.
+  intros H. destruct (N.eqb a' a) eqn:E1; [|reflexivity]. destruct (N.eqb b' b) eqn:E2; [|reflexivity].
+  apply N.eqb_eq in E1, E2. subst. contradiction.
+Qed.
+Lemma alookup2_aremove2_other {V} a b a' b' (l : list (N * N * V)) : (a', b') <> (a, b) -> alookup2 a' b' (aremove2 a b l) = alookup2 a' b' l.
+Proof.
+  intros Hne. induction l as [|[[a0 b0] v0] l IH]; cbn [aremove2 alookup2]; [reflexivity|].
+  destruct (N.eqb a a0 && N.eqb b b0) eqn:E.
+  - apply andb_true_iff in E. destruct E as [E1 E2]. apply N.eqb_eq in E1, E2. subst. rewrite (key2_neq _ _ _ _ Hne). exact IH.
+  - cbn [alookup2]. rewrite IH. reflexivity.
+Qed.
+Lemma alookup2_aremove2_same {V} a b (l : list (N * N * V)) : alookup2 a b (aremove2 a b l) = None.
+Proof.
+  induction l as [|[[a0 b0] v0] l IH]; cbn [aremove2 alookup2]; [reflexivity|].
+  destruct (N.eqb a a0 && N.eqb b b0) eqn:E; [exact IH|]. cbn [alookup2]. rewrite E. exact IH.
+Qed.
